@@ -579,7 +579,9 @@ pub fn run(prop: &str, seed: u64, n: usize, outdir: &str, _corpus: Option<&str>)
             let files = [gd.char_def(), GenDict::rows_csv(&gd.unk), gd.matrix_def(), GenDict::rows_csv(&gd.sys), gd.user.as_ref().map_or(String::new(), |u| GenDict::rows_csv(u))];
             let which = rng.below(5) as usize;
             // 1 case in 4 keeps the files as they are (the text-level model on unedited files)
-            let edited = if rng.chance(1, 4) { files[which].clone() } else { corrupt_text(&mut rng, &files[which]) };
+            let edited = if rng.chance(1, 4) { files[which].clone() }
+                else if which == 0 && files[0].contains("..") && rng.chance(1, 3) { corrupt_range_end(&mut rng, &files[0]) }
+                else { corrupt_text(&mut rng, &files[which]) };
             let mut fs = files.clone();
             fs[which] = edited.clone();
             let has_user = gd.user.is_some() || which == 4;
@@ -797,6 +799,16 @@ pub fn run(prop: &str, seed: u64, n: usize, outdir: &str, _corpus: Option<&str>)
 
 /// One random edit of a definition file: drop / duplicate / alter a character, cut the tail,
 /// remove or duplicate a line, blank the file, insert an out-of-range number.
+/// the end of a range ("a..b") replaced by something that is not a number
+pub fn corrupt_range_end(rng: &mut Rng, s: &str) -> String {
+    let starts: Vec<usize> = s.match_indices("..").map(|m| m.0).collect();
+    if starts.is_empty() { return s.to_string(); }
+    let k = *rng.pick(&starts) + 2;
+    let rest = &s[k..];
+    let stop = rest.find(|c: char| c == ' ' || c == '\n').unwrap_or(rest.len());
+    format!("{}{}{}", &s[..k], rng.pick(&["0x005G", "0x", "", "-0x41", "0xＡ", "0x1FFFFFFFFFFFFFFFFF"][..]), &rest[stop..])
+}
+
 pub fn corrupt_text(rng: &mut Rng, s: &str) -> String {
     let mut lines: Vec<String> = s.lines().map(|l| l.to_string()).collect();
     let mut b: Vec<char> = s.chars().collect();
@@ -817,12 +829,7 @@ pub fn corrupt_text(rng: &mut Rng, s: &str) -> String {
         }
         7 if !lines.is_empty() => { let k = rng.below(lines.len() as u64) as usize; lines[k] = lines[k].split(|c: char| c == ' ' || c == ',').next().unwrap_or("").to_string(); return lines.join("\n") + "\n"; }
         // the end of a range ("a..b") replaced by something that is not a number
-        7 if s.contains("..") && rng.chance(1, 2) => {
-            let k = s.find("..").unwrap() + 2;
-            let rest = &s[k..];
-            let stop = rest.find(|c: char| c == ' ' || c == '\n').unwrap_or(rest.len());
-            return format!("{}{}{}", &s[..k], rng.pick(&["0x005G", "0x", "", "-0x41", "0xＡ", "0x1FFFFFFFFFFFFFFFFF"][..]), &rest[stop..]);
-        }
+        7 if s.contains("..") && rng.chance(1, 2) => { return corrupt_range_end(rng, s); }
         8 if rng.chance(1, 2) => { b.extend("\n,0,0,5,a\n,0,0,6,b\n".chars()); }   // two rows with an empty first cell at the very end
         8 => { b.extend("\n0x0..0xFFFFFFFFFFFFFFFF DEFAULT\n".chars()); }
         _ => { b.extend("\nZZ 1 1\n".chars()); }
